@@ -16,6 +16,14 @@ CHECKS = {
             "Exhaustive inside the stated bounds, sampled beyond.",
             "Trusts the 20-line reference splitter (LF/CRLF only, the code's own terminator definition) and Python's str.isspace "
             "as the widest whitespace definition.", "DESIGN.md §3 C15"),
+    "C13": ("exploration",
+            "runtime contracts (icontract) on the real deep_update + reference-precedence oracle over builder/CLI executions and context histories",
+            "icontract post-conditions on the real deep_update (result equals a 15-line reference merge incl. DefaultValue rules; source "
+            "unchanged) evaluated on every (recursive) call made by random merge histories, by LanguageContextBuilder.create() with 0-3 "
+            "YAML files + overrides, and by the real CLI (--list-configuration read back); histories of 2-6 builders/contexts in one "
+            "process re-read every earlier context after each creation. Sampled, not exhaustive.",
+            "Trusts the reference merge and the documented language post-rules (Python forces asserts; C++ std shorthand applies its group as a unit).",
+            "DESIGN.md §3 C13"),
 }
 
 NOT_YET = {}
